@@ -89,13 +89,17 @@ type c09Case struct {
 	// Tag: the change under test is the creation of refs/tags/v1 (approvals name the
 	// tagged commit instead of a tree); code-review approvals do not apply to tags
 	Tag bool `json:"tag,omitempty"`
+	// BareKey: the rule additionally trusts the first person's key as a bare key
+	// principal (two principals, one key: still one approver)
+	BareKey bool `json:"bare_key,omitempty"`
 }
 
 var c09X = c09Change{Ref: refMain, From: "prev", To: "x"}
 
-// c09XTag is the change under test in tag mode: the first entry for refs/tags/v1,
-// pointing (through a signed tag object) at commit x.
-var c09XTag = c09Change{Ref: refTag, From: "zero", To: "x"}
+// c09XTag is the change under test in tag mode: refs/tags/v1, already recorded once
+// is recorded again pointing - through a new signed tag
+// object - at commit x; "prev" is the previously recorded tag object.
+var c09XTag = c09Change{Ref: refTag, From: "prev", To: "x"}
 
 func (cs c09Case) x() c09Change {
 	if cs.Tag {
@@ -112,6 +116,10 @@ func c09Policy(cs c09Case) scen.Policy {
 	for _, k := range cs.Trusted {
 		prs = append(prs, scen.Principal{ID: "person-" + k, Keys: []string{k}, Person: true, Identities: map[string]string{c09App: identityOf(k)}})
 		ids = append(ids, "person-"+k)
+	}
+	if cs.BareKey {
+		prs = append(prs, keyPrincipal(cs.Trusted[0]))
+		ids = append(ids, keyPrincipal(cs.Trusted[0]).ID)
 	}
 	p := scen.Policy{
 		RootPrincipals: []scen.Principal{rootPrincipal}, RootThreshold: 1, RootSigners: []string{"root"},
@@ -136,6 +144,7 @@ type c09Env struct {
 	commitX githash.Hash
 	commitY githash.Hash
 	tag     bool
+	prevTag githash.Hash
 }
 
 func (e *c09Env) resolve(ch c09Change) (ref, from, to string) {
@@ -143,6 +152,9 @@ func (e *c09Env) resolve(ch c09Change) (ref, from, to string) {
 	switch ch.From {
 	case "prev":
 		from = e.prev.String()
+		if e.tag && ch.Ref != refMain {
+			from = e.prevTag.String()
+		}
 	case "zero":
 		from = strings.Repeat("0", 40)
 	default:
@@ -315,6 +327,51 @@ func c09Credited(cs c09Case) (credited map[string]bool, canonicalEnough bool) {
 	return credited, len(canon) >= cs.Threshold
 }
 
+// c09BareKeyExtra is 1 when the rule also lists the first person's key as a bare
+// key principal and that human is credited both through a signature (which gittuf
+// may attribute to the bare key principal) and through a code-review approval
+// (attributed to the person): two principals of the policy, each counted once.
+func c09BareKeyExtra(cs c09Case) int {
+	if !cs.BareKey || cs.After {
+		return 0
+	}
+	k := cs.Trusted[0]
+	viaSig := cs.EntrySigner == k
+	for _, a := range cs.Auths {
+		if a.Statement != cs.x() {
+			continue
+		}
+		for _, s := range a.Signers {
+			if s == k {
+				viaSig = true
+			}
+		}
+	}
+	viaApp := false
+	if cs.App == "trusted" {
+		for _, rv := range cs.Reviews {
+			if rv.Statement != cs.x() || rv.SignedBy != "app" {
+				continue
+			}
+			dismissed := false
+			for _, d := range rv.Dismissed {
+				if d == identityOf(k) {
+					dismissed = true
+				}
+			}
+			for _, ap := range rv.Approvers {
+				if ap == identityOf(k) && !dismissed {
+					viaApp = true
+				}
+			}
+		}
+	}
+	if viaSig && viaApp {
+		return 1
+	}
+	return 0
+}
+
 // c09Clean reports whether the case contains nothing that can make gittuf
 // fail closed for reasons other than the count (an invalid envelope at X's path,
 // a review signed by a non-app key): liveness is asserted only then.
@@ -376,6 +433,39 @@ func c09Judge(c *fw.Ctx, cs c09Case) {
 		c.Inconclusive("base entry")
 		return
 	}
+	if cs.Tag {
+		// the tag exists already: recorded once by a trusted principal with everybody's
+		// approval. gittuf refuses older entries of a moved tag in full verification,
+		// so tag mode verifies the latest entry only (VerifyRef)
+		t0, err := b.Tag(first, "v1", "first release", keys.Get(cs.Trusted[0]))
+		if err != nil {
+			c.Inconclusive("base tag object")
+			return
+		}
+		e.prevTag = t0
+		atts, _ := attestations.LoadCurrentAttestations(b)
+		stmt, _ := attestations.NewReferenceAuthorizationForTag(refTag, strings.Repeat("0", 40), first.String())
+		env, _ := dsse.CreateEnvelope(stmt)
+		for _, k := range cs.Trusted {
+			env, _ = dsse.SignEnvelope(scen.Ctx, env, keys.DSSE{A: keys.Get(k)})
+		}
+		if err := atts.SetReferenceAuthorization(b, env, refTag, strings.Repeat("0", 40), first.String()); err != nil {
+			c.Inconclusive("base tag authorization")
+			return
+		}
+		b.SetSigner(nil)
+		if err := atts.Commit(b, "base tag att\n", true, false); err != nil {
+			c.Inconclusive("base tag attestation commit")
+			return
+		}
+		_ = b.SetRef(refTag, t0)
+		baseTagEntry, err := scen.RecordEntry(b, refTag, t0, cs.Trusted[0])
+		if err != nil {
+			c.Inconclusive("base tag entry")
+			return
+		}
+		_ = baseTagEntry
+	}
 	// NOTE: the raw attestation tree replaces the base authorization; the base entry was
 	// verified against the state preceding it, which still contains it.
 	if !cs.After {
@@ -427,12 +517,17 @@ func c09Judge(c *fw.Ctx, cs c09Case) {
 		c.Nontrivial(fw.Hash(cs))
 	}
 	c.Guard(cs, func() {
-		_, err := policy.NewPolicyVerifier(b).VerifyRefFull(scen.Ctx, verifyRef)
+		var err error
+		if cs.Tag {
+			_, err = policy.NewPolicyVerifier(b).VerifyRef(scen.Ctx, verifyRef)
+		} else {
+			_, err = policy.NewPolicyVerifier(b).VerifyRefFull(scen.Ctx, verifyRef)
+		}
 		if cs.Tag {
 			c.Count("tag-mode:"+strings.SplitN(errClass(err), ":", 2)[0], 1)
 		}
 		c.Count("observed:"+strings.SplitN(errClass(err), ":", 2)[0], 1)
-		if err == nil && len(credited) < cs.Threshold {
+		if err == nil && len(credited)+c09BareKeyExtra(cs) < cs.Threshold {
 			c.Violation("approval-overcount", map[string]string{"cause": c09Cause(cs)}, fmt.Sprintf("change X accepted with threshold %d although only %v can be credited for exactly X", cs.Threshold, keysOf(credited)), cs)
 			return
 		}
@@ -497,17 +592,18 @@ func c09Gen(r *rand.Rand) c09Case {
 	cs.App = []string{"trusted", "trusted", "untrusted", "absent"}[r.IntN(4)]
 	cs.After = r.IntN(8) == 0
 	cs.Tag = r.IntN(4) == 0
+	cs.BareKey = r.IntN(4) == 0
 	change := func() c09Change {
 		if cs.Tag {
 			switch r.IntN(8) {
 			case 0:
-				return c09Change{Ref: "refs/tags/v2", From: "zero", To: "x"}
+				return c09Change{Ref: "refs/tags/v2", From: "prev", To: "x"}
 			case 1:
-				return c09Change{Ref: refTag, From: "prev", To: "x"}
+				return c09Change{Ref: refTag, From: "zero", To: "x"} // approval of creating the tag, not of moving it
 			case 2:
 				return c09Change{Ref: refTag, From: "other", To: "x"}
 			case 3:
-				return c09Change{Ref: refTag, From: "zero", To: "y"}
+				return c09Change{Ref: refTag, From: "prev", To: "y"}
 			case 4:
 				return c09Change{Ref: refMain, From: "zero", To: "x"}
 			default:
